@@ -68,5 +68,19 @@ _e("C07", "runtime post-condition monitor scoring start and result with the same
    "Q_def(result) >= Q_def(start) - 1e-9 for the seven deterministic-gain optimisers from default, planted, random, "
    "near-optimal and own-output starts; strictly increasing hierarchical levels; chains of three re-feeds; known finding: "
    "modularity_louvain_dir beyond its first aggregation level")
+_e("C14", "metamorphic monitor (relabelling of the partition argument) over all set partitions of 6 nodes",
+   "every partition consumer is evaluated on (W, ci) and (W, phi(ci)) for six injective relabellings including "
+   "order-reversing and random ones; partition_distance: symmetry, zero VI / unit MI exactly for coinciding partitions "
+   "on all 52x52 pairs, unit interval; agreement columns and buffer sizes; ci2ls / ls2ci round trips; known finding: "
+   "gateway_coef_sign")
+_e("C18", "residual monitor: defining equations evaluated on the returned arrays with the oracle's own operators",
+   "first-passage equation off the diagonal on connected / strongly connected / periodic chains, diffusion efficiency "
+   "against 1/MFPT, PageRank fixed point / positivity / unit sum over d and falff, subgraph centrality against "
+   "diag(expm(A)), eigenvector centrality as a non-negative unit eigenvector of lambda_max under label shuffles of "
+   "degenerate graphs, walk counts against integer matrix powers")
+_e("C19", "runtime post-condition monitor + offline checker over the recorded random history (SpyRandomState draw log)",
+   "observed adjacency against scipy t statistics and BFS components, component labels 1..C, p-values against the "
+   "returned null, and every null value recomputed by replaying the k relabellings actually drawn; metamorphic swaps "
+   "of groups/tail and subject order; unsuitable thresholds must raise")
 
 NOT_APPLICABLE = []
